@@ -1,14 +1,21 @@
-import AikenVerif.Gen.Builtins
+import AikenVerif.Lemmas.TextNoNewline
 /-!
 # C15 — UPLC text round-trips: property theorems
 
-Part 1 (tables, regenerated from `/repo` on every run by `tools/translate.py`):
-the printer's builtin names (`impl Display for DefaultFunction`) are read back by
-the parser's table (`impl FromStr for DefaultFunction`) as the same builtin.
+Model: `Model/Text.lean` (printer `pretty.rs` → tokens, parser `parser.rs` peg grammar ← tokens,
+string escapes on characters), tables regenerated from `/repo` on every run by `tools/translate.py`
+(`Gen/Builtins.lean`, `Gen/TextTables.lean`).  The modelled behaviour is the one with
+`proposed_fixes/C15-*.diff` and `C20-uplc-parser-unknown-builtin.diff` applied; on the unpatched tree the
+generated tables differ and `type_names_roundtrip`, `string_escape_roundtrip` (via `escapeMode_fixed`)
+and `builtin_rule_no_panic` stop checking.
+
+Every theorem quantifies over *all* strings / integers / byte strings / data / constants / terms /
+programs; hypotheses are explicit decidable (`Bool`) predicates, each shown satisfiable next to it.
 -/
 namespace AikenVerif.C15
-open AikenVerif.Gen
+open AikenVerif.Gen AikenVerif.Gen.TextTables AikenVerif.Text
 
+-- ------------------------------------------------------------------ part 1: generated tables
 /-- every builtin's printed name parses back to that builtin -/
 theorem builtin_names_roundtrip : ∀ b : Builtin, Builtin.fromStr b.display = some b := by
   intro b; cases b <;> decide
@@ -25,5 +32,192 @@ theorem builtin_display_injective : ∀ a b : Builtin, a.display = b.display →
 /-- non-vacuity / sanity: the table has the size of the enum and a known entry -/
 example : Builtin.all.length = 91 ∧ Builtin.fromStr Builtin.addInteger.display = some .addInteger := by
   decide
+
+/-- every type name the printer emits (`Type::to_doc`) is read back by `type_info()` as the same type,
+and the `list` / `pair` type keywords agree (fails on the unpatched tree at G2 and at the ml-result type) -/
+theorem type_names_roundtrip :
+    (∀ a : TyAtom, tyAtomOfWord (chars (tyDisplay a)) = some a) ∧
+    chars tyListDisplay = chars tyListParse ∧ chars tyPairDisplay = chars tyPairParse :=
+  ⟨tyAtomOfWord_display, tyList_kw, tyPair_kw⟩
+
+/-- all other keyword tables of printer and parser agree entry by entry: term keywords, `program`,
+constant type keywords after `con`, data constructors, booleans -/
+theorem keyword_tables_agree :
+    (∀ k : TermKind, chars (termDisplay k) = chars (termParse k)) ∧
+    chars programDisplay = chars programParse ∧
+    (∀ k : ConKind, conKindOfWord (chars (conDisplay k)) = some k) ∧
+    (∀ k : DataKind, dataKindOfWord (chars (dataDisplay k)) = some k) ∧
+    (∀ b : Bool, boolOfWord (boolWord b) = some b) :=
+  ⟨kwTerm_eq, program_kw, conKindOfWord_kw, dataKindOfWord_kw, boolOfWord_boolWord⟩
+
+/-- the parser's `builtin` rule returns a parse error (not a panic) on an unknown name
+(`C20-uplc-parser-unknown-builtin.diff`; the model's `altBuiltin` returns `none` there) -/
+theorem builtin_rule_no_panic : unknownBuiltin = .error := by decide
+
+/-- nesting of type syntax: any type, printed, parses back (and consumes exactly its tokens) -/
+theorem type_text_roundtrip (t : Ty) : parseTy (printTy t).length (printTy t) = some (t, []) := by
+  simpa using parseTy_printTy t (printTy t).length [] (Nat.le_refl _)
+
+example : parseTy 12 (printTy (.list (.pair .g2 (.list .ml)))) = some (.list (.pair .g2 (.list .ml)), []) := by
+  decide
+
+-- ------------------------------------------------------------------ part 2: lexical round trips
+/-- escaping then un-escaping any string over all of Unicode gives the string back
+(`escape` = what pretty.rs prints between the quotes, `unescape` = the grammar's `character()*`) -/
+theorem string_escape_roundtrip (s : List Char) : unescape (escape s) = some s :=
+  unescape_escape s
+
+/-- … also in context: whatever follows the closing quote is left untouched -/
+theorem string_escape_roundtrip_ctx (s rest : List Char) :
+    unescapeQ (s.length + 1) (escape s ++ '"' :: rest) = some (s, rest) :=
+  unescapeQ_escape s rest _ (Nat.le_refl _)
+
+example : unescape (escape ['a', '"', '\\', '\n', '\x00', 'é', '\x7f', Char.ofNat 0x10ffff]) =
+    some ['a', '"', '\\', '\n', '\x00', 'é', '\x7f', Char.ofNat 0x10ffff] := by decide
+
+/-- the escaped text never contains a raw new-line: a string token cannot span lines, so the layout
+hack in `to_pretty` (blanking white-space-only lines) cannot touch the inside of a token -/
+theorem escape_no_newline (s : List Char) : '\n' ∉ escape s := escape_no_newline' s
+
+/-- integers of any size and sign: `BigInt::to_string` is read back by `big_number()`;
+unsigned numbers below 2^64 (`usize`: versions, constructor tags) by `decimal()` -/
+theorem number_roundtrip :
+    (∀ i : Int, parseBigNumber (intChars i) = some i) ∧
+    (∀ n : Nat, n < 2 ^ 64 → parseDecimal (natChars n) = some n) :=
+  ⟨parseBigNumber_intChars, parseDecimal_natChars⟩
+
+example : parseBigNumber (intChars (-(2 : Int) ^ 70)) = some (-(2 : Int) ^ 70) := number_roundtrip.1 _
+
+/-- the bound in `number_roundtrip` is needed: 2^64 does not fit `usize` -/
+example : parseDecimal (natChars (2 ^ 64)) = none := by
+  simp [parseDecimal, allDigits_natChars, digitsVal_natChars]
+
+/-- byte strings: `#` + `hex::encode` is read back by `hex::decode` -/
+theorem bytes_hex_roundtrip (b : Bytes) : hexDecode (hexChars b) = some b := hexDecode_hexChars b
+
+-- ------------------------------------------------------------------ part 3: data and constants
+/-- any `Data` value (every constructor, any nesting; tags must fit the parser's `u64`) -/
+theorem data_text_roundtrip (d : Data) (h : dataOk d = true) :
+    parseData (printData d).length (printData d) = some (d, []) := by
+  simpa using parseData_print d (printData d).length [] h (Nat.le_refl _)
+
+example : dataOk (.constr 128 [.map [(.int (-1), .bytes [0xff])], .list [], .constr 0 []]) = true := by decide
+
+/-- the tag bound is needed: a tag of 2^64 is printed but rejected by `decimal()` -/
+example : parseData 100 (printData (.constr (2 ^ 64) [])) = none := by
+  simp [printData, parseData, dataKindOfWord_kw, parseDecimal, allDigits_natChars, digitsVal_natChars]
+
+/-- any well-formed constant of any type and nesting (`constOk`: no ml-result *value* — the printer panics
+on those —, list elements / pair components have the declared types, data tags fit `u64`) -/
+theorem const_text_roundtrip (c : Const) (h : constOk c.ty c = true) :
+    parseConst (printConst c).length (printConst c) = some (c, []) := by
+  simpa using parseConst_print c (printConst c).length [] h (Nat.le_refl _)
+
+example : constOk (Const.ty (.list (.pair .string (.list .data))
+    [.pair .string (.list .data) (.string ['é']) (.list .data [.data (.int 5)])]))
+    (.list (.pair .string (.list .data)) [.pair .string (.list .data) (.string ['é']) (.list .data [.data (.int 5)])])
+    = true := by decide
+
+/-- an empty list of ml-results is a well-formed constant (it can come out of the flat decoder) -/
+example : constOk (Const.ty (.list .ml [])) (.list .ml []) = true := by decide
+
+/-- the typing hypothesis is needed: an ill-typed element is printed (the printer never checks) but
+the parser rejects it -/
+example : parseConst 20 (printConst (.list .integer [.bool true])) = none := by decide
+
+-- ------------------------------------------------------------------ part 4: terms and programs
+/-- decidable hypotheses of the program round trip -/
+def WellFormed (p : Program Name) : Prop := programOk p = true
+def NamesConsistent (p : Program Name) : Prop := namesConsistent p = true
+instance (p : Program Name) : Decidable (WellFormed p) := by unfold WellFormed; infer_instance
+instance (p : Program Name) : Decidable (NamesConsistent p) := by unfold NamesConsistent; infer_instance
+
+/-- what the parser makes of printer output, exactly: the same program with every name's unique
+replaced by the number its text is interned to (`Interner::term`) — no hypothesis on names needed -/
+theorem parse_print_eq_relabel (p : Program Name) (h : WellFormed p) :
+    printProgram p = some (printProgramTokens p) ∧
+    parseProgram (printProgramTokens p) = some ⟨p.version, (relabel [] p.term).1⟩ := by
+  have h' := h
+  simp [WellFormed, programOk] at h'
+  exact ⟨by simp [printProgram, termPrintable_of_ok p.term h'.2], parseProgram_print p h⟩
+
+/-- **C15.** Pretty-printing any well-formed program and parsing the tokens back yields an
+α-equivalent program (same version, same nameless view, all constants and builtins identical),
+provided the names are consistent (at each variable the binder found through the text — all the
+printer emits — is the binder found through the unique). -/
+theorem text_roundtrip (p : Program Name) (hw : WellFormed p) (hn : NamesConsistent p) :
+    ∃ ts q, printProgram p = some ts ∧ parseProgram ts = some q ∧ AlphaEq q p := by
+  obtain ⟨h1, h2⟩ := parse_print_eq_relabel p hw
+  exact ⟨_, _, h1, h2, rfl, nameless_relabel p.term hn⟩
+
+/-- **Layout is irrelevant.** The same holds for *every* layout of the document — every choice of which
+soft breaks (`line_()`: before the closing parenthesis of `lam`/`delay`/`force`/`con`/`builtin`/`constr`/
+`case`/`program` and of list types) are rendered as white space; hard breaks and spaces are white space
+in any case.  The flat rendering used above is the layout `fun _ => false`. -/
+theorem text_roundtrip_any_layout (p : Program Name) (hw : WellFormed p) (hn : NamesConsistent p) (w : Layout) :
+    ∃ q, parseProgram (printProgramTokensL w p) = some q ∧ AlphaEq q p :=
+  ⟨_, parseProgram_printL w p hw, rfl, nameless_relabel p.term hn⟩
+
+theorem flat_is_a_layout (p : Program Name) : printProgramTokensL (fun _ => false) p = printProgramTokens p :=
+  printProgramTokensL_flat p
+
+/-- … and no token of any rendering contains a raw new-line character (strings are escaped, everything
+else is a table word, digits, hex or an identifier), so the line-based post-processing in `to_pretty`
+(blanking white-space-only lines, re-joining with `\n`) cannot change a token -/
+theorem print_tokens_no_newline (p : Program Name) (hw : WellFormed p) (w : Layout) :
+    ∀ tk ∈ printProgramTokensL w p, tokOk tk = true := by
+  have := printProgramTokensL_ok w p hw
+  simpa [toksOk] using this
+
+/-- printing what was parsed from printer output gives the same tokens again (what `aiken uplc fmt`
+relies on); no hypothesis on names -/
+theorem print_parse_fixpoint (p : Program Name) (hw : WellFormed p) :
+    ∃ ts q, printProgram p = some ts ∧ parseProgram ts = some q ∧ printProgram q = some ts := by
+  obtain ⟨h1, h2⟩ := parse_print_eq_relabel p hw
+  refine ⟨_, _, h1, h2, ?_⟩
+  have h' := hw
+  simp [WellFormed, programOk] at h'
+  simp [printProgram, printProgramTokens, termPrintable_relabel, termPrintable_of_ok p.term h'.2,
+    printTerm_relabel]
+
+/-- a scope-free sufficient condition for `NamesConsistent`: over the whole program, text and unique
+determine each other — what `debruijn_to_name` (text `i_<unique>`, used by `aiken uplc decode` and the
+`--uplc` dump) and the parser's interner produce -/
+theorem names_bijective_consistent (p : Program Name) (h : namesBijective p = true) : NamesConsistent p :=
+  namesConsistent_of_bijective p h
+
+/-- a non-trivial program satisfying both hypotheses: shadowing, constr/case, a nested constant -/
+def sample : Program Name :=
+  ⟨(1, 1, 0), .lam ⟨"x", 7⟩ (.lam ⟨"y", 3⟩ (.lam ⟨"x", 7⟩
+    (.case (.constr 1 [.var ⟨"x", 7⟩, .var ⟨"y", 3⟩])
+      [.app (.force (.builtin .ifThenElse)) (.const (.list (.pair .integer .string) [.pair .integer .string (.integer (-5)) (.string ['é', '"'])])),
+       .delay .error])))⟩
+
+example : WellFormed sample ∧ NamesConsistent sample := by decide
+
+/-- what `debruijn_to_name` produces (text `i_<unique>`) is consistent -/
+example : NamesConsistent ⟨(1, 0, 0), .lam ⟨"i_0", 0⟩ (.lam ⟨"i_1", 1⟩ (.app (.var ⟨"i_0", 0⟩) (.var ⟨"i_1", 1⟩)))⟩ := by
+  decide
+
+/-- why `WellFormed` excludes names that start with `--` (although `ident()` accepts them): once a line
+break follows — and the real layout breaks lines — the name is read as a comment -/
+example : lex "(lam --x\n y)".toList = some [.lpar, .word ['l', 'a', 'm'], .ws, .word ['y'], .rpar] ∧
+    lex "(lam --x y)".toList = some [.lpar, .word ['l', 'a', 'm'], .ws, .word ['-', '-', 'x'], .ws, .word ['y'], .rpar] := by
+  decide
+
+example : ¬ WellFormed ⟨(1, 0, 0), .lam ⟨"--x", 0⟩ (.var ⟨"--x", 0⟩)⟩ := by decide
+
+/-- the hypothesis `NamesConsistent` is needed: `(lam x₀ (lam x₁ x₀))` with equal texts is well-formed,
+prints as `(lam x (lam x x))`, and parses back as a program in which the variable refers to the *inner*
+binder — not α-equivalent -/
+def shadowCex : Program Name := ⟨(1, 0, 0), .lam ⟨"x", 0⟩ (.lam ⟨"x", 1⟩ (.var ⟨"x", 0⟩))⟩
+
+theorem text_roundtrip_needs_names_consistent :
+    WellFormed shadowCex ∧ ¬ NamesConsistent shadowCex ∧
+    ∃ q, parseProgram (printProgramTokens shadowCex) = some q ∧ ¬ AlphaEq q shadowCex := by
+  refine ⟨by decide, by decide, _, (parse_print_eq_relabel shadowCex (by decide)).2, ?_⟩
+  intro h
+  have := h.2
+  simp [nameless, shadowCex, relabel, resolveBy, intern, idxOf, nameChars, mkName] at this
 
 end AikenVerif.C15
